@@ -91,3 +91,22 @@ def classify(case, res):
     ww = w.bit_length() - 1
     top = any(s + l == (1 << (w - ww)) for s, l, _ in case['segs'])
     return {'top_of_address_space': top}
+
+
+def replay(ctx, path):
+    """re-run one recorded engine case against the current REPO and compare with the machine definition"""
+    d = json.loads(open(path).read())
+    case = d['replay']['case']
+    so = fw.build_fjcore(ctx) if case['engine'] == 'native' else None
+    res = run_engines(ctx, [case], so)[0]
+    print('case    :', {k: case.get(k) for k in ('w', 'engine', 'no_flat', 'flat_max_words', 'measure', 'last_ops', 'input')})
+    print('segments:', [(s, l, len(dd)) for s, l, dd in case['segs']])
+    print('observed:', {k: res.get(k) for k in ('cause', 'ops', 'fault', 'out', 'last_ops', 'storage', 'exc')})
+    if 'exc' in res:
+        print('REPLAY: the engine raised; the property requires a termination cause')
+        return 1
+    rc, model = fw.coq_eval_term(ctx, 'replay_obs', HEADER, f'observe ({coq_case(case, res)})')
+    print('required (machine definition):', model[-600:])
+    ok = fw.coq_eval_shards(ctx, 'replay', HEADER, [coq_case(case, res)], 'check_case')
+    print('REPLAY:', 'agrees with the machine definition' if ok == [True] else 'STILL DIFFERS')
+    return 0 if ok == [True] else 1
